@@ -1,10 +1,18 @@
 import Cfdm.Lemmas.Files
 import Cfdm.Lemmas.FilesFS
 import Cfdm.Lemmas.FilesHeap
+import Cfdm.Lemmas.FilesTree
+import Cfdm.Lemmas.FilesPathWrite
 /-
 C10 — writing never damages its inputs or the files they still read from.
-Property theorems only.  `Ver.new` is cfdm with fixes/C10-*.patch applied, `Ver.old` the code
-as it stands.
+Property theorems only.
+
+Sections 1-5 (`Cfdm.Files`): `Ver.new` is the code at /repo HEAD (the four repairs recorded as
+`fixed:` in known_findings.json are applied), `Ver.old` the code as it was before them.
+Section 6 (`Cfdm.FilesTree`, the whole component tree) and section 7 (`Cfdm.FilesPath`, which
+name is decided on and which inode is opened): `Ver.old` is the code at /repo HEAD, `Ver.new` the
+code with the proposed fixes/C10-{interpolation-parameters,node-coordinates,same-inode,
+external-name}.patch.
 -/
 namespace Cfdm.Props.C10
 open Cfdm.Files
@@ -45,7 +53,7 @@ theorem exFS_WF : exFS.WF := by
 
 /-! ## 1. The guard's set covers the files still needed — for every object -/
 
-/-- **need ⊆ original file names (patched aggregation), for every object tree** — hence for
+/-- **need ⊆ original file names (aggregation as at HEAD), for every object tree** — hence for
 whatever sequence of copies, subspaces, conversions or data transplants produced it.  `need`
 is the specification (every file array that is a leaf of the tree: field data, construct
 data, bounds, interior rings, count/index/list variables); `origNew` is
@@ -70,7 +78,7 @@ theorem C10_get_filenames_incomplete : 0 ∈ fBoundsLazy.need ∧ fBoundsLazy.ne
 
 /-! ## 2. The guard is sound: a needed file is never opened for writing -/
 
-/-- **Guard soundness (patched code, modes w, a and r+).**  If some construct being written
+/-- **Guard soundness (code at HEAD, modes w, a and r+).**  If some construct being written
 still needs a file that resolves to the target, the request is refused and the file system is
 unchanged. -/
 theorem C10_guard_sound (fs : FS) (rq : Req) (f : FieldM) (n : Name)
@@ -155,7 +163,7 @@ example : exFS.isfile 2 = true ∧
 
 /-! ## 3. Whatever happens, the files still needed are intact -/
 
-/-- **Needed files are intact (patched code).**  For every request — any mode, any options,
+/-- **Needed files are intact (code at HEAD, in the coarse file system of `Model/Files.lean`).**  For every request — any mode, any options,
 external file or not, success or failure at any step — every file from which a construct
 being written still has unread data reads back exactly what it held before. -/
 theorem C10_needed_files_intact (fs : FS) (hwf : fs.WF) (rq : Req) (f : FieldM) (n : Name)
@@ -248,9 +256,9 @@ theorem C10_shared_list_variable_counterexample :
       ∀ p ∈ Part.all, p ≠ .listVar → partView h' o p = partView h o p := by
   decide
 
-/-! ## 5. The code as it stands -/
+/-! ## 5. The code before the repairs 7723aa6 and 22fef00 (`Ver.old`) -/
 
-/-- **Unpatched guard, what does hold.**  The full statement (`C10_guard_sound` with `.old`)
+/-- **The guard before the repairs, what did hold.**  The full statement (`C10_guard_sound` with `.old`)
 is false; it holds for histories without a data transplant (`set_data` with another
 construct's data), when the needed file is named exactly like the target (no symbolic link in
 between), in mode w and for the target only (not the external file). -/
@@ -284,9 +292,9 @@ theorem C10_old_guard_sound_partial (regs : Regs) (hregs : RegsLC regs) (ops : L
 example : RegsLC [fRead 0, fMem] := by unfold RegsLC; decide
 
 /-- **Counter-example 1 (data transplant).**  `h.set_data(g.data)` with g lazily read from X,
-then `cfdm.write(h, X)`: the unpatched guard looks only at `original_filenames`, which
+then `cfdm.write(h, X)`: the guard looked only at `original_filenames`, which
 `set_data` does not carry over; X is deleted, then the write fails because X can no longer be
-read.  The patched code refuses. -/
+read.  The code at HEAD refuses. -/
 theorem C10_old_transplant_counterexample :
     let regs := run [fRead 0, fMem] [.setdata 1 .fdata 0 .fdata false false]
     let h := regs[2]?.getD default
@@ -297,7 +305,7 @@ theorem C10_old_transplant_counterexample :
   decide
 
 /-- **Counter-example 2 (symbolic link).**  The field was read through the link 4 → 0 and is
-written to 0: `abspath` of the two differ, the unpatched guard lets the write delete the file. -/
+written to 0: `abspath` of the two differ, the old guard let the write delete the file. -/
 theorem C10_old_symlink_counterexample :
     let rq : Req := ⟨[fRead 4], 0, .w, true, none, .none, false⟩
     (writeProc .old exFS rq).2 = .failed ∧ (writeProc .old exFS rq).1.read 4 = some [] ∧ exFS.read 4 = some [100] ∧
@@ -315,7 +323,7 @@ theorem C10_old_external_counterexample :
     (writeProc .new exFS rq).2 = .valueError ∧ (writeProc .new exFS rq).1.read 0 = some [100] := by
   decide
 
-/-- **Counter-example 4 (append).**  Mode 'a' has no guard at all in the code as it stands: a
+/-- **Counter-example 4 (append).**  Mode 'a' had no guard at all: a
 field is appended to the very file it is still being read from (in the implementation this
 re-opens a file that is open for writing — netCDF4 raises or takes the interpreter down). -/
 theorem C10_old_append_counterexample :
@@ -323,5 +331,370 @@ theorem C10_old_append_counterexample :
     (writeProc .old exFS rq).2 = .ok ∧ (writeProc .old exFS rq).1.read 0 = some [100, 0] ∧
     (writeProc .new exFS rq).2 = .valueError ∧ (writeProc .new exFS rq).1.read 0 = some [100] := by
   decide
+
+
+end Cfdm.Props.C10
+
+namespace Cfdm.Props.C10
+
+/-! ## 6. The aggregate covers the WHOLE component tree -/
+
+section Tree
+open Cfdm.FilesTree
+
+/-- a file array of file `n` / an array in memory -/
+def tArr (n : Nat) : Tree := .leaf .arr [n]
+def tMem : Tree := .leaf .arr []
+/-- an uncompressed Data read from file `n` (its own record included) -/
+def tData (r : Role) (n : Nat) : Tree := .obj r (.data .none) [n] [tArr n]
+/-- a variable (count, index, list, tie point index, interpolation parameter, bounds …) read from file `n` -/
+def tVar (r : Role) (n : Nat) : Tree := .obj r .pd [n] [tData .data n]
+
+/-- A latitude coordinate as the user of section 6's finding builds it: a fresh coordinate and a
+fresh `Data` around a `SubsampledArray` whose tie points and tie point index variable are in memory
+and whose interpolation parameter variable `w` is the one read from file 0. -/
+def tSubsampled : Tree :=
+  .obj .top .field [] [
+    .obj .data (.data .none) [] [tMem],
+    .obj .cons .pdb [] [
+      .obj .data (.data .subsampled) [] [
+        tMem,
+        .obj .tiePointIndex .pd [] [.obj .data (.data .none) [] [tMem]],
+        tVar .interpParam 0]]]
+
+/-- A longitude coordinate whose bounds are computed from UGRID node coordinates: connectivity in
+memory, node coordinates still in file 0, fresh bounds and coordinate. -/
+def tNodeCoords : Tree :=
+  .obj .top .field [] [
+    .obj .data (.data .none) [] [tMem],
+    .obj .cons .pdb [] [
+      .obj .data (.data .none) [] [tMem],
+      .obj .bounds .pd [] [
+        .obj .data (.data .boundsFromNodes) [] [tMem, .obj .nodeCoords (.data .none) [] [tArr 0]]]]]
+
+/-- a DSG field read from file 0 whose count variable was replaced by the one read from file 5 -/
+def tRagged : Tree :=
+  .obj .top .field [0] [
+    .obj .data (.data .raggedIC) [0] [tArr 0, tVar .count 5, tVar .index 0],
+    .obj .cons .pdb [0] [tData .data 0, .obj .bounds .pd [0] [tData .data 0], .obj .ring .pd [] [tData .data 1],
+                         .obj .nodeCount .props [0] []],
+    .obj .cons .pd [0] [tData .data 0],
+    .obj .cons .props [] []]
+
+/-- **need ⊆ aggregated original file names, for every well-typed component tree** (patched
+aggregation): whatever a class can hold — data, bounds, interior ring, the array of a `Data`, the
+count / index / list variables of ragged and gathered arrays, tie point index and interpolation
+parameter variables and dependent tie points of subsampled arrays, the node coordinates behind
+UGRID bounds, domain topology / cell connectivity constructs, every metadata construct — is
+reached by `get_original_filenames()`.  `need` (every file-array leaf of the tree) is written
+without reference to the aggregation.  No bound on depth or width. -/
+theorem C10_tree_need_subset_orig (t : Tree) (h : t.wellTyped = true) : ∀ x ∈ t.need, x ∈ t.orig .new :=
+  Tree.need_sub_orig .new t (Tree.closed_new_of_wellTyped t h)
+
+example : tRagged.wellTyped = true ∧ tRagged.need = [0, 5, 0, 0, 0, 1, 0] := by decide
+example : tSubsampled.wellTyped = true ∧ tNodeCoords.wellTyped = true := by decide
+
+/-- `wellTyped` cannot be dropped: a component the classes do not have (here: data held by an
+object without a data slot) is not looked at. -/
+theorem C10_tree_wellTyped_needed :
+    let t : Tree := .obj .top .props [] [tData .data 0]
+    t.wellTyped = false ∧ 0 ∈ t.need ∧ t.orig .new = [] := by decide
+
+/-- **The records themselves are not needed.**  Even if every recorded name of every object of the
+tree has been lost (fresh holders, `Data(source())`, `Bounds(data=…)`, rebuilt arrays), the
+aggregate still covers every file array below: it is computed from the arrays, not remembered. -/
+theorem C10_tree_records_irrelevant (t : Tree) (h : t.wellTyped = true) : ∀ x ∈ t.need, x ∈ t.clearOwn.orig .new := by
+  intro x hx
+  have hw : t.clearOwn.wellTyped = true := by rw [Tree.wellTyped_clearOwn]; exact h
+  have := C10_tree_need_subset_orig t.clearOwn hw x
+  rw [Tree.need_clearOwn] at this
+  exact this hx
+
+example : tRagged.clearOwn.orig .new = [0, 5, 0, 0, 0, 1, 0] := by decide
+
+/-- **… after any component-level history**: replacing any component anywhere in the tree by any
+well-typed object (`set_data`, `set_bounds`, `set_interior_ring`, a rebuilt compressed array with
+parts from other files), deleting components, `to_memory()` of any sub-object only, losing the
+record of any object — in any order and number. -/
+theorem C10_tree_histories (t : Tree) (ops : List TOp) (h : t.wellTyped = true) :
+    ∀ x ∈ (t.run ops).need, x ∈ (t.run ops).orig .new :=
+  C10_tree_need_subset_orig _ (Tree.wellTyped_run ops t h)
+
+/-- to_memory of the field's data only, forget the field's record, transplant an interpolation
+parameter variable read from file 7 into … nothing that can hold it (rejected), then a count
+variable from file 7 into the data: files 7, 0 (index, coordinates) and 1 are still needed -/
+example : (tRagged.run [.toMem [0], .forget [], .setKid [1] (tVar .interpParam 7), .setKid [0] (tVar .count 7)]).need
+    = [7, 0, 0, 1, 0] := by decide
+
+/-- **The code as it stands**: the same holds for trees without interpolation parameter variables
+and node coordinates. -/
+theorem C10_tree_old_partial (t : Tree) (h : t.wellTyped = true) (hh : t.noHidden = true) :
+    ∀ x ∈ t.need, x ∈ t.orig .old := by
+  rw [Tree.orig_old_eq_new t hh]
+  exact C10_tree_need_subset_orig t h
+
+example : tRagged.noHidden = true := by decide
+
+/-- **Counter-example (interpolation parameters).**  `Data.get_interpolation_parameters` asks the
+array for a method it does not have and returns its default: the interpolation parameter variable
+— lazily read from file 0, and even recording it — is never visited, the field reports no
+original file at all, and `cfdm.write(h, <file 0>)` deletes the file. -/
+theorem C10_tree_old_interp_param_counterexample :
+    tSubsampled.wellTyped = true ∧ tSubsampled.need = [0] ∧ tSubsampled.orig .old = [] ∧
+      tSubsampled.orig .new = [0, 0, 0] := by decide
+
+/-- **Counter-example (node coordinates).**  `BoundsFromNodesArray.get_filenames()` reports the
+connectivity array only. -/
+theorem C10_tree_old_node_coordinates_counterexample :
+    tNodeCoords.wellTyped = true ∧ tNodeCoords.need = [0] ∧ tNodeCoords.orig .old = [] ∧
+      tNodeCoords.orig .new = [0] := by decide
+
+end Tree
+
+/-! ## 7. The refusals are decided on the name that is opened -/
+
+section Path
+open Cfdm.FilesPath
+
+/-- entries: 0 = X (inode 0), 1 = Y (inode 1), 2 = Z (inode 2), 4 → 5 → 0 (a chain of two symbolic
+links to X), 6 = a hard link to X (inode 0), 7 = a directory, 8 → 9 (dangling), everything else absent -/
+def exOS : OS where
+  ent := fun e =>
+    if e = 0 then some (.file 0) else if e = 1 then some (.file 1) else if e = 2 then some (.file 2)
+    else if e = 4 then some (.link 5) else if e = 5 then some (.link 0) else if e = 6 then some (.file 0)
+    else if e = 7 then some .dir else if e = 8 then some (.link 9) else none
+  store := fun i => [100 + i]
+  next := 3
+
+/-- strings: `n` names entry `n`, except 10 = another spelling of X (`./x.nc`, `sub/../x.nc`,
+`dirlink/x.nc`); `expand` is the identity except 20 (`$A`) ↦ 21 (`$B/x.nc`: the value of `A`
+contains a `$`) ↦ 0 (X) -/
+def exEnv : Env where
+  expand := fun s => if s = 20 then 21 else if s = 21 then 0 else s
+  entOf := fun s => if s = 10 then 0 else s
+  fuel := 3
+
+theorem exOS_settled : Settled exOS exEnv.fuel := by
+  intro e
+  by_cases h4 : e = 4
+  · subst h4; decide
+  · by_cases h5 : e = 5
+    · subst h5; decide
+    · by_cases h8 : e = 8
+      · subst h8; decide
+      · have hs : exOS.step e = e := by
+          simp only [OS.step, exOS]
+          split
+          · rename_i t ht
+            repeat' split at ht
+            all_goals simp_all
+          · rfl
+        rw [walk_of_terminal exOS e hs]
+        exact hs
+
+theorem exOS_inoWF : InoWF exOS := by
+  intro e i h
+  simp only [exOS] at h ⊢
+  show i < 3
+  repeat' split at h
+  all_goals (try simp at h)
+  all_goals (subst h; decide)
+
+/-- a field read from X under the spelling 10, still lazy -/
+def pRead : FieldA := { need := [10], orig := [10] }
+def pMem : FieldA := { need := [], orig := [] }
+/-- … with an external cell measure held in memory -/
+def pReadExt : FieldA := { need := [10], orig := [10], ext := [⟨[], []⟩] }
+
+/-- **A refusal is pure** (both versions, whatever `expand`, `entOf` and the link structure are). -/
+theorem C10_path_refusal_pure (v : Ver) (env : Env) (os : OS) (rq : Req)
+    (h : (writeP v env os rq).out.isRefusal = true) : (writeP v env os rq).os = os :=
+  writeP_refusal_pure v env os rq h
+
+example : (writeP .new exEnv exOS ⟨[pRead], 4, .w, true, none, .none, false⟩).out = .valueError := by decide
+
+/-- **overwrite=False** is decided on the expanded name, through any chain of links: if that
+name resolves to a regular file, nothing changes. -/
+theorem C10_path_no_overwrite (v : Ver) (env : Env) (os : OS) (rq : Req) (hm : rq.mode = .w) (ho : rq.overwrite = false)
+    (he : isfile env os (env.expand rq.target) = true) :
+    (writeP v env os rq).os = os ∧ (writeP v env os rq).out.isRefusal = true := by
+  unfold writeP
+  split
+  · exact ⟨rfl, rfl⟩
+  · simp only [hm]
+    unfold writeW
+    simp [he, ho, Outcome.isRefusal]
+
+example : isfile exEnv exOS (exEnv.expand 4) = true ∧
+    (writeP .new exEnv exOS ⟨[pMem], 4, .w, false, none, .none, false⟩).out = .osError := by decide
+
+/-- **Every name handed to `os.remove` / `Dataset(…, 'w')` / `Dataset(…, 'a')` has been checked
+against every field passed by the caller** (patched code), in the state of the file system in
+which the write began: the expanded target, and for the external file the name the nested
+`write` opens after ITS expansion. -/
+theorem C10_path_opened_names_checked (env : Env) (os : OS) (rq : Req) (hne : rq.fields ≠ []) :
+    ∀ ev ∈ (writeP .new env os rq).log, ∀ s, ev.opened = some s → hits .new env os rq.fields s = false := by
+  intro ev hev s hs
+  rcases writeP_opened_names .new env os rq ev hev s hs with ⟨h1, h2⟩ | ⟨e, he, h1, h2⟩
+  · subst h1
+    have : rq.fields.isEmpty = false := by
+      cases hf : rq.fields with
+      | nil => exact absurd hf hne
+      | cons a l => rfl
+    simpa [this] using h2
+  · subst h1
+    simpa [extGuard, he, extCheckName] using h2
+
+example : (writeP .new exEnv exOS ⟨[pMem, pRead], 2, .w, true, some 1, .none, false⟩).log =
+    [.isfile 2, .guard 1, .guard 2, .remove 2, .create 2] := by decide
+
+/-- **Needed files are intact (patched code)**, whatever the spelling of any name, the expansion
+of `~` and `$VAR` (idempotent or not), chains of symbolic links of any depth up to what the OS
+follows, hard links, directories and dangling links in the way, the mode, the options, the
+external file, and whether the write succeeds or fails at any step: every name from which a
+construct being written still has unread data — and that its aggregate reports, which section 6
+proves for every component tree — reads back exactly what it held. -/
+theorem C10_path_needed_intact (env : Env) (os : OS) (rq : Req) (hS : Settled os env.fuel) (hwf : InoWF os)
+    (f : FieldA) (n : Raw) (hf : f ∈ rq.fields) (hn : n ∈ f.need) (hcov : n ∈ f.orig) :
+    readName env (writeP .new env os rq).os n = readName env os n := by
+  have _ := hn
+  have hne : rq.fields.isEmpty = false := by
+    cases hfe : rq.fields with
+    | nil => simp [hfe] at hf
+    | cons a l => rfl
+  apply needed_intact_core .new env os rq hS hwf n
+  · intro h
+    simp only [hne, Bool.not_false, Bool.true_and] at h
+    exact sameFile_of_mem_hits_false .new env os rq.fields f n _ hf hcov h
+  · intro e he h
+    simp only [extGuard, he, extCheckName] at h
+    exact sameFile_of_mem_hits_false .new env os rq.fields f n _ hf hcov h
+
+/-- appending to the hard link 6 of X, writing through the chain 4 → 5 → 0, `external=` `$A` -/
+example : Settled exOS exEnv.fuel ∧ InoWF exOS ∧ pRead ∈ [pMem, pRead] ∧ (10 : Nat) ∈ pRead.need ∧
+    (writeP .new exEnv exOS ⟨[pMem, pRead], 6, .a, true, none, .none, false⟩).out = .valueError ∧
+    (writeP .new exEnv exOS ⟨[pMem, pRead], 4, .w, true, none, .none, false⟩).out = .valueError ∧
+    (writeP .new exEnv exOS ⟨[pMem, pReadExt], 3, .w, true, some 20, .none, false⟩).out = .valueError ∧
+    (writeP .new exEnv exOS ⟨[pMem, pReadExt], 2, .w, true, some 1, .emit 1, false⟩).out = .failed :=
+  ⟨exOS_settled, exOS_inoWF, by decide, by decide, by decide, by decide, by decide, by decide⟩
+
+/-- **Sections 6 and 7 together**: constructs given as component trees, written by the patched
+code — every file array anywhere in any of them is intact afterwards. -/
+theorem C10_tree_write_safe (env : Env) (os : OS) (hS : Settled os env.fuel) (hwf : InoWF os)
+    (ts : List FilesTree.Tree) (hts : ∀ t ∈ ts, t.wellTyped = true)
+    (target : Raw) (mode : Mode) (overwrite : Bool) (external : Option Raw) (fault : Fault) (omitD : Bool)
+    (t : FilesTree.Tree) (ht : t ∈ ts) (n : Raw) (hn : n ∈ t.need) :
+    let rq : Req := ⟨ts.map (fun t => { need := t.need, orig := t.orig .new, ext := [] }), target, mode, overwrite,
+                     external, fault, omitD⟩
+    readName env (writeP .new env os rq).os n = readName env os n := by
+  intro rq
+  exact C10_path_needed_intact env os rq hS hwf { need := t.need, orig := t.orig .new, ext := [] } n
+    (List.mem_map.2 ⟨t, ht, rfl⟩) hn (C10_tree_need_subset_orig t (hts t ht) n hn)
+
+/-- **Which files can change at all** (both versions; success or failure at any step): only the
+entry the expanded target names, the entry it resolved to, and the same two for the name the
+nested write of the external file opens; and only inodes that did not exist or the one the
+target resolved to. -/
+theorem C10_path_footprint (v : Ver) (env : Env) (os : OS) (rq : Req) :
+    let names := [env.expand rq.target] ++ (match rq.external with | some e => [env.expand (env.expand e)] | none => [])
+    (∀ m, (∀ s ∈ names, m ≠ env.entOf s ∧ m ≠ final env os s) → (writeP v env os rq).os.ent m = os.ent m) ∧
+    (∀ i, i < os.next → (∀ s ∈ names, inoOf env os s ≠ some i) → (writeP v env os rq).os.store i = os.store i) := by
+  intro names
+  obtain ⟨M, I, hF, hM, hI⟩ := writeP_frame_gen v env os rq (fun s => s ∈ names)
+    (fun _ => by simp [names])
+    (fun e he _ => by simp [names, he])
+  refine ⟨?_, ?_⟩
+  · intro m hm
+    apply hF.ent
+    intro hmM
+    obtain ⟨s, hs, h⟩ := hM m hmM
+    rcases h with h | h
+    · exact (hm s hs).1 h
+    · exact (hm s hs).2 h
+  · intro i hi hni
+    apply hF.store i hi
+    intro hiI
+    rcases hI i hiI with h | ⟨s, hs, h⟩
+    · exact absurd hi (Nat.not_lt.2 h)
+    · exact hni s hs h
+
+/-- a write that fails while the second field is emitted, to 3 (absent) -/
+example : (writeP .new exEnv exOS ⟨[pMem, pMem], 3, .w, true, none, .emit 1, false⟩).out = .failed ∧
+    (writeP .new exEnv exOS ⟨[pMem, pMem], 3, .w, true, none, .emit 1, false⟩).os.ent 3 = some (.file 3) ∧
+    (writeP .new exEnv exOS ⟨[pMem, pMem], 3, .w, true, none, .emit 1, false⟩).os.store 3 = [0] := by decide
+
+/-- **The code as it stands, what does hold**: the same, when no two directory entries share an
+inode (no hard links) and expanding the expanded `external=` name changes nothing. -/
+theorem C10_path_old_needed_intact_partial (env : Env) (os : OS) (rq : Req) (hS : Settled os env.fuel) (hwf : InoWF os)
+    (hone : ∀ a b i, os.ent a = some (.file i) → os.ent b = some (.file i) → a = b)
+    (hidem : ∀ e, rq.external = some e → env.expand (env.expand e) = env.expand e)
+    (f : FieldA) (n : Raw) (hf : f ∈ rq.fields) (hn : n ∈ f.need) (hcov : n ∈ f.orig) :
+    readName env (writeP .old env os rq).os n = readName env os n := by
+  have _ := hn
+  have hne : rq.fields.isEmpty = false := by
+    cases hfe : rq.fields with
+    | nil => simp [hfe] at hf
+    | cons a l => rfl
+  -- without hard links, equal inodes mean equal final entries
+  have up : ∀ s, sameFile .old env os n s = false → sameFile .new env os n s = false := by
+    intro s hs
+    cases hnew : sameFile .new env os n s with
+    | false => rfl
+    | true =>
+      exfalso
+      have hfin : (final env os n == final env os s) = false := by simpa [sameFile] using hs
+      simp only [sameFile, hfin, Bool.false_or, Bool.and_eq_true, beq_iff_eq] at hnew
+      obtain ⟨⟨_, hsome⟩, heq⟩ := hnew
+      obtain ⟨i, hi⟩ := Option.isSome_iff_exists.1 hsome
+      have h1 := inoOf_some hi
+      have h2 := inoOf_some (heq ▸ hi)
+      have := hone _ _ _ h1 h2
+      simp [this] at hfin
+  apply needed_intact_core .old env os rq hS hwf n
+  · intro h
+    simp only [hne, Bool.not_false, Bool.true_and] at h
+    exact up _ (sameFile_of_mem_hits_false .old env os rq.fields f n _ hf hcov h)
+  · intro e he h
+    simp only [extGuard, he, extCheckName] at h
+    rw [hidem e he]
+    exact up _ (sameFile_of_mem_hits_false .old env os rq.fields f n _ hf hcov h)
+
+/-- **Counter-example (hard link, mode 'a').**  X has a second name 6.  A field lazily read from
+X is appended to 6: `realpath` of the two names differ, the guard lets the request through, and
+the inode the field still reads from is opened for writing and altered.  The patched guard also
+compares inodes and refuses.  (In mode 'w' the same request is harmless as the code stands —
+`os.remove` drops the name, the inode lives on under X; the patched guard refuses it all the same.) -/
+theorem C10_path_old_hard_link_append_counterexample :
+    let rq : Req := ⟨[pRead], 6, .a, true, none, .none, false⟩
+    (writeP .old exEnv exOS rq).out = .ok ∧ readName exEnv (writeP .old exEnv exOS rq).os 10 = some [100, 0] ∧
+    readName exEnv exOS 10 = some [100] ∧ (writeP .new exEnv exOS rq).out = .valueError ∧
+    (writeP .old exEnv exOS { rq with mode := .w }).out = .ok ∧
+    readName exEnv (writeP .old exEnv exOS { rq with mode := .w }).os 10 = some [100] ∧
+    (writeP .new exEnv exOS { rq with mode := .w }).out = .valueError := by
+  decide
+
+/-- **Counter-example (the external name is expanded twice).**  `external='$A'` with `A='$B/x.nc'`:
+the guard looks at the once-expanded name `$B/x.nc` (a file that does not exist), the nested
+`write` expands again and overwrites X while the field passed in still reads from it; the write
+reports success.  `hidem` of the partial theorem cannot be dropped. -/
+theorem C10_path_old_external_expanded_twice_counterexample :
+    let rq : Req := ⟨[pReadExt], 3, .w, true, some 20, .none, false⟩
+    exEnv.expand (exEnv.expand 20) ≠ exEnv.expand 20 ∧
+    (writeP .old exEnv exOS rq).out = .ok ∧ readName exEnv (writeP .old exEnv exOS rq).os 10 = some [1000] ∧
+    readName exEnv exOS 10 = some [100] ∧ (writeP .new exEnv exOS rq).out = .valueError := by
+  decide
+
+/-- **What the property does not promise: a construct that is NOT passed to the write.**  `g`
+lazily reads X but is not among the fields written; `cfdm.write(h, X)` with `h` in memory
+overwrites X (both versions — there is nothing the guard could look at) and `g` has lost its
+data.  The property protects the inputs of the write only. -/
+theorem C10_bystander_not_protected :
+    let g : FieldA := pRead
+    let rq : Req := ⟨[pMem], 0, .w, true, none, .none, false⟩
+    g ∉ rq.fields ∧ (writeP .new exEnv exOS rq).out = .ok ∧ (writeP .old exEnv exOS rq).out = .ok ∧
+    readable exEnv exOS (writeP .new exEnv exOS rq).os g = false := by
+  decide
+
+end Path
 
 end Cfdm.Props.C10
